@@ -9,6 +9,7 @@ use vstd::std_specs::hash::*;
 use std::collections::{HashMap, HashSet, VecDeque};
 use std::time::Instant;
 use std::fmt::Debug;
+use vstd::std_specs::iter::IteratorSpec;
 
 verus! {
 
@@ -509,7 +510,7 @@ pub mod sp {
 }
 pub use sp::*;
 
-broadcast use {vstd::std_specs::hash::group_hash_axioms, ax::group_string_keys, sp::axiom_clone_of, sp::group_wf, sp::group_total};
+broadcast use {vstd::std_specs::hash::group_hash_axioms, ax::group_string_keys, sp::axiom_clone_of, sp::group_wf, sp::group_total /*EXTRA_BROADCAST*/};
 
 // ------------------------------------------------------------------------------------------------
 // Clock (DESIGN 5.2): Instant / Duration are kept verbatim; their readings are uninterpreted.
@@ -520,11 +521,17 @@ pub struct ExInstant(Instant);
 /// whole seconds elapsed since the Instant was taken, as read by this cache operation
 pub uninterp spec fn age_secs(i: Instant) -> u64;
 pub uninterp spec fn dur_secs(d: std::time::Duration) -> u64;
-pub uninterp spec fn dur_secs_f64(d: std::time::Duration) -> f64;
+pub mod clk {
+    use vstd::prelude::*;
+    /// fractional seconds of a Duration / of the age of an Instant (sync TLRU age factor)
+    pub uninterp spec fn dur_f64(d: std::time::Duration) -> f64;
+    pub uninterp spec fn age_f64(i: std::time::Instant) -> f64;
+}
+pub use clk::*;
 
 pub assume_specification [Instant::now] () -> (r: Instant);
 pub assume_specification [Instant::elapsed] (i: &Instant) -> (d: std::time::Duration)
-    ensures dur_secs(d) == age_secs(*i);
+    ensures dur_secs(d) == age_secs(*i), dur_f64(d) == age_f64(*i);
 pub assume_specification [std::time::Duration::as_secs] (d: &std::time::Duration) -> (r: u64)
     ensures r == dur_secs(*d);
 
